@@ -156,6 +156,70 @@ type c13Op struct {
 	TimeNs int64 `json:"time_ns,omitempty"` // absolute, unix ns
 	// generator's note (not used by replay)
 	Note string `json:"note,omitempty"`
+	// create / claim / refund: deliver as a transaction would -- ValidateBasic of the message,
+	// then the real msg server (crossChain = true) -- instead of calling the keeper
+	Msg bool `json:"msg,omitempty"`
+}
+
+// c13FormatOK: the format rules of the three ValidateBasic functions that the model does
+// not carry (32-byte hash / swap id / random number, other-chain address lengths); a
+// generated operation is delivered as a message only when they hold.
+func c13FormatOK(op c13Op) bool {
+	is32 := func(h string) bool {
+		b, err := hex.DecodeString(h)
+		return err == nil && len(b) == 32
+	}
+	switch op.Kind {
+	case "create":
+		return is32(op.Hash) && len(op.Soc) <= bep3types.MaxOtherChainAddrLength
+	case "claim":
+		return is32(op.ID) && is32(op.Secret)
+	case "refund":
+		return is32(op.ID)
+	}
+	return false
+}
+
+// c13MsgValid states the rules of MsgCreateAtomicSwap.ValidateBasic that the model carries.
+func c13MsgValid(op c13Op) bool {
+	if op.Kind != "create" {
+		return true
+	}
+	if op.Ts <= 0 || op.Span == 0 || len(op.Coins) == 0 {
+		return false
+	}
+	return c13Coins(op.Coins).IsValid()
+}
+
+func (w *c13World) execMsg(op c13Op) (Class, error) {
+	return Atomically(w.ctx, func(ctx sdk.Context) error {
+		ms := bep3keeper.NewMsgServerImpl(w.k)
+		switch op.Kind {
+		case "create":
+			m := bep3types.NewMsgCreateAtomicSwap(w.addrs[op.Sender].String(), w.addrs[op.Recip].String(), "recipient-other-chain", op.Soc,
+				unhex(op.Hash), op.Ts, c13Coins(op.Coins), op.Span)
+			if err := m.ValidateBasic(); err != nil {
+				return err
+			}
+			_, err := ms.CreateAtomicSwap(sdk.WrapSDKContext(ctx), &m)
+			return err
+		case "claim":
+			m := bep3types.NewMsgClaimAtomicSwap(w.addrs[op.From].String(), unhex(op.ID), unhex(op.Secret))
+			if err := m.ValidateBasic(); err != nil {
+				return err
+			}
+			_, err := ms.ClaimAtomicSwap(sdk.WrapSDKContext(ctx), &m)
+			return err
+		case "refund":
+			m := bep3types.NewMsgRefundAtomicSwap(w.addrs[op.From].String(), unhex(op.ID))
+			if err := m.ValidateBasic(); err != nil {
+				return err
+			}
+			_, err := ms.RefundAtomicSwap(sdk.WrapSDKContext(ctx), &m)
+			return err
+		}
+		panic("not a message: " + op.Kind)
+	})
 }
 
 type c13Swap struct {
@@ -381,6 +445,9 @@ func unhex(s string) []byte {
 }
 
 func (w *c13World) exec(op c13Op) (Class, error) {
+	if op.Msg {
+		return w.execMsg(op)
+	}
 	switch op.Kind {
 	case "block":
 		w.ctx = w.ctx.WithBlockHeight(op.Height).WithBlockTime(time.Unix(0, op.TimeNs).UTC())
@@ -1504,6 +1571,9 @@ func c13Splits(w *c13World, step int, op c13Op, cls Class, err error, before, af
 		_ = amt
 	case "claim":
 		x := before.swaps[op.ID]
+		if x == nil { // a claim reported successful for a swap that does not exist: left to the monitors
+			break
+		}
 		if x.Dir == 1 {
 			mark("claim:incoming")
 		} else {
@@ -1514,6 +1584,9 @@ func c13Splits(w *c13World, step int, op c13Op, cls Class, err error, before, af
 		}
 	case "refund":
 		x := before.swaps[op.ID]
+		if x == nil {
+			break
+		}
 		if x.Dir == 1 {
 			mark("refund:incoming")
 		} else {
@@ -1594,9 +1667,19 @@ func c13Run(seed uint64, idx, n int, cfg *c13Cfg, ops []c13Op, cnt *Counters) c1
 			op = ops[i]
 		} else {
 			op = g.gen(w, prev, cnt)
+			op.Msg = (idx+i)%2 == 1 && c13FormatOK(op)
+			if op.Msg && op.Kind == "create" {
+				op.Cross = true // the msg server always passes crossChain = true
+			}
 		}
 		coqOp := in.coqOp(w, op, prev)
 		cls, err := w.exec(op)
+		if op.Msg && cnt != nil {
+			cnt.Inc("msg:" + op.Kind + ":" + cls.String())
+			if !c13MsgValid(op) {
+				cnt.Inc("msg:refused-by-validate-basic")
+			}
+		}
 		after := w.snap()
 		out.ops = append(out.ops, op)
 		if cnt != nil {
@@ -1629,9 +1712,12 @@ func c13Run(seed uint64, idx, n int, cfg *c13Cfg, ops []c13Op, cnt *Counters) c1
 				}
 			}
 		}
-		steps = append(steps, fmt.Sprintf("(%s,\n    %s)", coqOp, in.coqObs(w, cls, prev, after)))
+		steps = append(steps, fmt.Sprintf("(%s, %s,\n    %s)", Bool(op.Msg), coqOp, in.coqObs(w, cls, prev, after)))
 		if out.fail == nil {
 			pred, sig, detail := c13OpMonitor(w, i, op, cls, prev, after, led)
+			if pred == "" && op.Msg && !c13MsgValid(op) && cls == ClassOk {
+				pred, sig, detail = "message-glue-refuses-malformed-swaps", "create-accepted-against-validate-basic", fmt.Sprintf("span %d timestamp %d coins %v", op.Span, op.Ts, op.Coins)
+			}
 			if pred == "" {
 				pred, sig, detail = c13StateMonitor(w, after, led)
 			}
@@ -1641,7 +1727,7 @@ func c13Run(seed uint64, idx, n int, cfg *c13Cfg, ops []c13Op, cnt *Counters) c1
 		}
 		prev = after
 	}
-	out.coq = fmt.Sprintf("mkHist %s\n  %s", in.coqHeader(w, s0), List(steps))
+	out.coq = fmt.Sprintf("mkMHist %s\n  %s", in.coqHeader(w, s0), List(steps))
 	return out
 }
 
@@ -1664,7 +1750,7 @@ func runC13(o Opts) (*Result, error) {
 			return nil, err
 		}
 		ot := c13Run(h.Seed, h.Idx, 0, &h.Cfg, h.Ops, cnt)
-		name, err := WriteShard(o.OutDir, 0, c13Header, []string{ot.coq}, "mismatches")
+		name, err := WriteShard(o.OutDir, 0, c13Header, []string{ot.coq}, "mismatches_m")
 		if err != nil {
 			return nil, err
 		}
@@ -1714,7 +1800,7 @@ func runC13(o Opts) (*Result, error) {
 		if len(cases) == 0 {
 			return nil
 		}
-		name, err := WriteShard(o.OutDir, shard, c13Header, cases, "mismatches")
+		name, err := WriteShard(o.OutDir, shard, c13Header, cases, "mismatches_m")
 		if err != nil {
 			return err
 		}
